@@ -155,6 +155,9 @@ fn factorial(sub_result: Number) -> Result<Number, Box<dyn error::Error>> {
                     factorial_result *= i as i64;
                 }
                 Ok(Number::Integer(factorial_result))
+            } else if n > 20 {
+                // beyond i64: the factorial of the operand's double value, as the exact product (Gamma is inf from 169! on and off by 1e-13)
+                factorial(Number::Float(n as f64))
             } else {
                 Ok(Number::Float(gamma((n as f64) + 1.0)))
             }
